@@ -20,6 +20,8 @@ func checkC17(r *core.Run) {
 	r.Rule("T-paykey: in UpdatePaymentAddress the PaymentAddress/Kid records are written under msg.Did (or the bound DID tested equal to it) and the parsed account address, i.e. the same keys the guards looked up")
 	r.Rule("T-payload: in verifyBindingProof the message passed to signature verification/recovery must data-depend on proof.Did and proof.Timestamp")
 	r.Rule("CAP-did: the nine binding/payment prefixes of module did are written only from {Binding, Update, UpdatePaymentAddress, did genesis, did v2 migration}")
+	r.Rule("T-loopvar: in the did message handlers no address of a per-loop variable is stored into a slice/field inside its loop")
+	ruleLoopVarAddr(r, "T-loopvar", "did/keeper.msgServer.")
 	r.Assume(aDeps)
 	r.Assume(aCG)
 
@@ -45,7 +47,9 @@ func checkC17(r *core.Run) {
 	// ---- Update
 	acct := "*" + k + "GetAccountList(" + msg + ".Did)#0.AccountDids"
 	rem := "elem(" + msg + ".RemoveAccountDid)"
-	parsed := "did/keeper.parseAcccountId(" + k + "GetAccountId(" + rem + ")#0.AccountId)#0"
+	// the account record may be looked up inline or through a helper that maps the message's list to records
+	parsed := "did/keeper.parseAcccountId(*.AccountId)#0"
+	_ = rem
 	evalGuard(r, "G-upd", "did/keeper.msgServer.Update", effSel{AllWrites: true}, []clause{
 		cl("submitter-bound-to-did", guard.Eq(k+"CreatorIsBoundToDid("+msg+".Creator,"+msg+".Did)", "nil")),
 		cl("request-is-fresh", guard.Ge("("+msg+".Timestamp + 900)", now)),
@@ -53,7 +57,7 @@ func checkC17(r *core.Run) {
 		cl("every-listed-account-is-kept-or-removed", guard.ForAll(acct,
 			guard.True("did/keeper.inList(elem("+acct+"),"+msg+".RemoveAccountDid)"),
 			guard.True("did/keeper.inUpdateList(elem("+acct+"),"+msg+".UpdateAccountAuth)"))),
-		cl("payment-account-is-not-unbound", guard.ForAll(msg+".RemoveAccountDid",
+		cl("payment-account-is-not-unbound", guard.ForAll("*"+msg+".RemoveAccountDid*",
 			guard.Ne(parsed+".Address", k+"GetPaymentAddress("+msg+".Did)#0.Address"),
 			guard.Ne(parsed+".Network", "\"cosmos\""),
 			guard.Ne(parsed+".Chain", "sdk.Context.ChainID()"))),
